@@ -418,6 +418,22 @@ func (e *engine) scanHTTP() {
 				delete(e.former, ev.LockID)
 				e.grantPos[ev.LockID] = e.w.pos(to)
 				e.openWindow(to, ev.LockID, ev.Seq)
+				// M4: a fresh lock carries the granting node's position at the grant. Nothing commits on
+				// that node between the grant and the response (that is M1), so this is the last position
+				// change the node made before the response was seen - also when a local writer finished
+				// while the request was waiting for the write lock.
+				if ev.HasGrant {
+					e.res.Evals++
+					if last := e.w.rec.between(0, ev.Seq, func(x event) bool { return x.Kind == "pos" && x.Node == to }); len(last) > 0 {
+						lp := last[len(last)-1]
+						if lp.TXID != ev.GrantTXID || lp.Chk != ev.GrantChk {
+							e.fail("C13.holder-starts-at-lock-position", "granted-position-is-not-the-primary-position", false, map[string]any{
+								"granting_node": to, "lock_id": ev.LockID,
+								"lock_position":    ltx.Pos{TXID: ltx.TXID(ev.GrantTXID), PostApplyChecksum: ltx.Checksum(ev.GrantChk)}.String(),
+								"primary_position": ltx.Pos{TXID: ltx.TXID(lp.TXID), PostApplyChecksum: ltx.Checksum(lp.Chk)}.String()})
+						}
+					}
+				}
 			}
 		case "DELETE /halt":
 			if ev.Status != 200 {
@@ -577,6 +593,82 @@ func (e *engine) doStep(st step) {
 		}
 		if st.G.D && e.handleID != 0 {
 			e.dups = append(e.dups, dupMsg{k: "halt", to: p, mid: st.O.ID, id: e.handleID})
+		}
+
+	case "AcquireRace":
+		// the request is sent while the local writer's transaction is open, the writer commits while
+		// AcquireHaltLock waits for the write lock, then the call is left to finish
+		if e.lw == nil {
+			obs = "other: no open writer"
+			break
+		}
+		if e.hh == nil {
+			hh, err := w.openLockFile("R")
+			if err != nil {
+				e.res.Infra = "open lock file: " + err.Error()
+				e.dead = true
+				return
+			}
+			e.hh, e.handleID = hh, 0
+		}
+		e.hhModel = st.O.ID
+		p := e.prim
+		sent := make(chan struct{}, 1)
+		tapR.notifySend(func(key string) {
+			if key == "POST /halt" {
+				select {
+				case sent <- struct{}{}:
+				default:
+				}
+			}
+		})
+		var err error
+		done := make(chan struct{})
+		var pn *core.Panic
+		var to bool
+		go func() {
+			defer close(done)
+			ctx, cancel := context.WithTimeout(context.Background(), w.o.AcquireTO+15*time.Second)
+			defer cancel()
+			pn, to = bounded("LockWait", w.o.AcquireTO+20*time.Second, func() { err = e.hh.lockWait(ctx) })
+		}()
+		select {
+		case <-sent:
+			time.Sleep(150 * time.Millisecond) // the handler reaches AcquireWriteLock and waits there
+		case <-done:
+		case <-time.After(10 * time.Second):
+		}
+		tapR.notifySend(nil)
+		var r txResult
+		tx := e.lw
+		e.lw = nil
+		pn2, to2 := bounded("local-writer-commit", 60*time.Second, func() { r = w.commitTx(tx) })
+		<-done
+		tapR.reset()
+		if e.callTrouble("local writer commit", pn2, to2) || e.callTrouble("LockWait", pn, to) {
+			return
+		}
+		for _, ev := range w.rec.between(e.stepPre, w.rec.mark(), func(ev event) bool { return ev.Kind == "http" && ev.Node == "R" && ev.Label == "POST /halt" }) {
+			e.handleID = ev.LockID
+		}
+		if e.handleID != 0 && st.O.ID != 0 {
+			e.realID[st.O.ID] = e.handleID
+		}
+		switch {
+		case r.Err != nil:
+			obs = "other: local commit: " + r.Err.Error()
+		case err == nil:
+			obs = "ok"
+			e.cmap[mpos{st.O.T, st.O.C}] = r.After
+			e.res.Evals++
+			// the holder was told to wait for the lock's position and LockWait succeeded: it is there
+			if got, want := w.pos("R"), w.pos(p); got != want {
+				e.fail("C13.holder-starts-at-lock-position", "holder-behind-primary-after-acquire", false, map[string]any{"holder_position": got.String(), "primary_position": want.String()})
+			}
+			e.curLock, e.first = w.n["R"].Store.DB(w.db).RemoteHaltLock(), false
+		default:
+			e.cmap[mpos{st.O.T, st.O.C}] = r.After
+			obs = "other: " + err.Error()
 		}
 
 	case "AcqTimeout":
@@ -1003,11 +1095,11 @@ func (e *engine) doStep(st step) {
 		return
 	}
 
-	if st.A == "Acquire" && obs == "ok" {
+	if (st.A == "Acquire" || st.A == "AcquireRace") && obs == "ok" {
 		e.granted = true
 	}
 	switch {
-	case st.A == "RTx", st.A == "Expire", st.A == "Rogue", st.A == "PChange", st.A == "Dup", st.A == "Block",
+	case st.A == "RTx", st.A == "Expire", st.A == "AcquireRace", st.A == "Rogue", st.A == "PChange", st.A == "Dup", st.A == "Block",
 		st.G.F != "" && st.G.F != "none", obs == "busy", obs == "hang", obs == "wait":
 		e.interesting = true
 	}
